@@ -210,7 +210,7 @@ pub fn run_mdd(a: &Args) {
     let mut rng = Rng::new(a.seed);
     let ninst = if a.thorough { 6000 } else { 500 };
     for _ in 0..ninst {
-        let fam = if rng.chance(1, 5) && !long_arcs { Fam::Knap(Knap::random(&mut rng)) } else { Fam::Table(TableDP::random(&mut rng, long_arcs)) };
+        let fam = if long_arcs && rng.chance(1, 3) { Fam::Knap(Knap::random_long(&mut rng)) } else if rng.chance(1, 5) && !long_arcs { Fam::Knap(Knap::random(&mut rng)) } else { Fam::Table(TableDP::random(&mut rng, long_arcs)) };
         for j in 0..4 {
             let mut req = random_req(&fam, &mut rng, &kinds, true);
             if j == 0 {
